@@ -52,7 +52,7 @@ pub struct C02;
 
 pub const BLOCK_KINDS: [&str; 8] = ["honest", "extra-forged-tx", "drop-tx", "rewrite-output-lock", "change-output-data", "change-witness", "body-of-another-block", "unsolicited-block"];
 pub const BP_KINDS: [&str; 10] = ["honest", "extra-header", "drop-header", "replace-header", "duplicate-header", "perturb-proof", "claim-found-as-missing", "claim-missing-as-found", "v1-wrong-uncles-hash", "v1-wrong-extension"];
-pub const TP_KINDS: [&str; 9] = ["honest", "merkle-index", "merkle-lemma", "witnesses-root", "move-tx-to-other-header", "extra-tx", "altered-tx", "claim-found-as-missing", "perturb-proof"];
+pub const TP_KINDS: [&str; 10] = ["honest", "merkle-index", "merkle-lemma", "witnesses-root", "move-tx-to-other-header", "extra-tx", "altered-tx", "claim-found-as-missing", "perturb-proof", "smuggle-requested-tx-into-another-block"];
 
 fn flip32(b: &Byte32, x: u64) -> Byte32 {
     let mut v = b.as_slice().to_vec();
@@ -208,8 +208,60 @@ fn mutate_blocks_proof(chain: &Chain, v1: &packed::SendBlocksProofV1, a: &Attack
     }
 }
 
-fn mutate_txs_proof(chain: &Chain, v1: &packed::SendTransactionsProofV1, a: &Attack) -> packed::LightClientMessage {
+fn mutate_txs_proof(chain: &Chain, v1: &packed::SendTransactionsProofV1, a: &Attack, view: &View, req: &packed::GetTransactionsProof) -> packed::LightClientMessage {
     let kind = TP_KINDS[a.kind as usize % TP_KINDS.len()];
+    if kind == "smuggle-requested-tx-into-another-block" && v1.filtered_blocks().len() >= 2 {
+        // Two requested transactions live in different blocks. The peer answers with ONE filtered block (a consistent answer
+        // to the request for that block's transactions alone: genuine header, MMR proof, Merkle proof) and appends the other
+        // requested transaction(s) to it with tree indices that do not exist, optionally preceded by junk lemmas.
+        let fbs: Vec<packed::FilteredBlock> = v1.filtered_blocks().into_iter().collect();
+        let k = a.val as usize % fbs.len();
+        let j = (k + 1 + (a.val as usize / 7) % (fbs.len() - 1)) % fbs.len();
+        let keep: Vec<Byte32> = fbs[k].transactions().into_iter().map(|t| t.calc_tx_hash()).collect();
+        let smuggled: Vec<packed::Transaction> = fbs[j].transactions().into_iter().collect();
+        let sub_req = req.clone().as_builder().tx_hashes(keep.pack()).build();
+        let base = view.send_transactions_proof(&sub_req);
+        if base.filtered_blocks().len() == 1 {
+            let fb = base.filtered_blocks().get(0).unwrap();
+            let mut txs: Vec<packed::Transaction> = fb.transactions().into_iter().collect();
+            let honest_idx: Vec<u32> = fb.proof().indices().into_iter().map(|v| Unpack::<u32>::unpack(&v)).collect();
+            // the proof library sorts the leaves by value and pairs them with the indices in the given order
+            let mut real_sorted: Vec<Byte32> = txs.iter().map(|t| t.calc_tx_hash()).collect();
+            real_sorted.sort();
+            let real_index: std::collections::HashMap<Byte32, u32> = real_sorted.into_iter().zip(honest_idx.into_iter()).collect();
+            let mut lem: Vec<Byte32> = vec![];
+            let junk = (a.val / 3) as usize % 3;
+            for t in smuggled.iter() {
+                txs.push(t.clone());
+            }
+            let mut all_sorted: Vec<Byte32> = txs.iter().map(|t| t.calc_tx_hash()).collect();
+            all_sorted.sort();
+            let mut bogus = 1000 + (a.val % 2) as u32;
+            let idx: Vec<u32> = all_sorted
+                .iter()
+                .map(|h| {
+                    real_index.get(h).cloned().unwrap_or_else(|| {
+                        bogus += 2;
+                        bogus
+                    })
+                })
+                .collect();
+            for q in 0..junk.min(smuggled.len() + 1) {
+                lem.push([0x40u8 + q as u8; 32].pack());
+            }
+            lem.extend(fb.proof().lemmas().into_iter());
+            let fb2 = fb.clone().as_builder().transactions(txs.pack()).proof(fb.proof().as_builder().indices(idx.pack()).lemmas(lem.pack()).build()).build();
+            // the remaining requested hashes (other blocks, non-existent ones) are reported missing
+            let present: Vec<Byte32> = fb2.transactions().into_iter().map(|t| t.calc_tx_hash()).collect();
+            let missing: Vec<Byte32> = req.tx_hashes().into_iter().filter(|h| !present.contains(h)).collect();
+            let out = base.clone().as_builder().filtered_blocks(packed::FilteredBlockVec::new_builder().push(fb2).build()).missing_tx_hashes(missing.pack()).build();
+            return if a.sub % 2 == 0 {
+                txs_proof_v1_msg(&out)
+            } else {
+                wrap_lc(packed::SendTransactionsProof::new_builder().last_header(out.last_header()).proof(out.proof()).filtered_blocks(out.filtered_blocks()).missing_tx_hashes(out.missing_tx_hashes()).build())
+            };
+        }
+    }
     let mut fbs: Vec<packed::FilteredBlock> = v1.filtered_blocks().into_iter().collect();
     let mut missing: Vec<Byte32> = v1.missing_tx_hashes().into_iter().collect();
     let mut proof: Vec<packed::HeaderDigest> = v1.proof().into_iter().collect();
@@ -470,7 +522,26 @@ impl Property for C02 {
             };
             // honest progress until a request of the targeted kind is in flight
             if a.target % 4 == 2 {
-                sim.step(&Step::FetchTx(a.pick));
+                if TP_KINDS[a.kind as usize % TP_KINDS.len()] == "smuggle-requested-tx-into-another-block" {
+                    // scripted set-up: the user asks for two transactions of different blocks, one of them in a block with at
+                    // most two transactions (a shallow Merkle tree), below the proven tip
+                    let proven_tip: u64 = sim.w.storage().get_tip_header().raw().number().unpack();
+                    let c = &sim.w.chains[0];
+                    let upto = (proven_tip as usize).min(c.blocks.len());
+                    let shallow: Vec<usize> = (1..upto).filter(|n| c.blocks[*n].transactions().len() <= 2).collect();
+                    if !shallow.is_empty() && upto > 2 {
+                        let nr = shallow[idx(a.pick, shallow.len())];
+                        let nf = 1 + (nr + (a.val as usize % (upto - 2))) % (upto - 1);
+                        if nf != nr {
+                            let r = c.blocks[nr].transactions().last().unwrap().hash();
+                            let f = c.blocks[nf].transactions()[a.val as usize % c.blocks[nf].transactions().len()].hash();
+                            let _ = sim.w.tx_rpc().fetch_transaction(r.unpack());
+                            let _ = sim.w.tx_rpc().fetch_transaction(f.unpack());
+                        }
+                    }
+                } else {
+                    sim.step(&Step::FetchTx(a.pick));
+                }
                 sim.w.tick(SupportProtocols::LightClient, 1);
             }
             if a.target % 4 != 3 {
@@ -573,7 +644,10 @@ impl Property for C02 {
                                 probe_txs.insert(h);
                             }
                             let honest = view.send_transactions_proof(&g);
-                            let m = mutate_txs_proof(c, &honest, a);
+                            let m = mutate_txs_proof(c, &honest, a, &view, &g);
+                            if TP_KINDS[a.kind as usize % TP_KINDS.len()] == "smuggle-requested-tx-into-another-block" {
+                                obs.label(if honest.filtered_blocks().len() >= 2 { "smuggle:built(two requested transactions in different blocks)" } else { "smuggle:not-applicable(fewer than two filtered blocks)" });
+                            }
                             if let Ok(packed::LightClientMessageUnion::SendTransactionsProof(p)) = packed::LightClientMessage::from_slice(&m.as_bytes()).map(|x| x.to_enum()) {
                                 for fb in p.filtered_blocks().into_iter() {
                                     probe_headers.insert(fb.header().calc_header_hash());
